@@ -372,7 +372,7 @@ def extracted_resource(repo):
 
 class C06(Prop):
     id = "C06"
-    props_file = ["Props/C06.v", "Props/C06_Bridge.v"]
+    props_file = ["Props/C06.v", "Props/C06_Bridge.v", "Props/C06_Examples.v"]
     coq_imports = ["From ONL Require Import Res.Resource."]
     n_quick = 500
     n_thorough = 8000
